@@ -7,6 +7,7 @@ CONSTANTS
   DeepDepth = 3
   HierDepth = 3
   XDepth = 2
+  Wide = TRUE
   EmitCases = FALSE
 INIT Init
 NEXT Next
